@@ -36,6 +36,13 @@ class Config:
         "integration_accuracy_abs": 1E-6,
         "integration_accuracy_rel": 1E-6
     }
+    default_config = dict(config)
+
+    @classmethod
+    def reset(cls):
+        r"""Restore all options to their default values."""
+        cls.config.clear()
+        cls.config.update(cls.default_config)
 
     def __getitem__(self, key):
         return Config.config[key]
